@@ -675,6 +675,12 @@ def install(root, mounts, uid, plan, logfd):
             psutil.disk_partitions = lambda all=False: list(table)
         except ImportError:
             pass
+    if plan.get('passwd'):
+        # the account database as --all-users sees it: [name, uid, home]
+        import pwd as _pwd
+        ents = [_pwd.struct_passwd((n, 'x', u, u, '', h, '/bin/sh'))
+                for n, u, h in plan['passwd']]
+        _pwd.getpwall = lambda: list(ents)
     if plan.get('put_clock'):
         import datetime as _dt
         import trashcli.put.clock as _clk
